@@ -108,6 +108,23 @@ def collect(tier, wd, seed):
     for script in BAD_SCRIPTS:
         for name, kind in plain[:N_BAD[tier]]:
             add(name, kind, script)
+    # the same claimed name again and again on ONE adapter from ONE client address, each login with its own shared secret (and hence its own hash)
+    for rep_name in (b"Steve", b"SameName"):
+        base = configs[0]
+        for j in range(3):
+            sec = hashlib.sha256(b"repeat%d" % j + rep_name).hexdigest()[:32]
+            i = len(cases) + 1
+            cases.append({"i": i, "name": list(rep_name), "kind": "repeated", "script": "ok", "sid": base["sid"], "secret": sec, "pubkey": base["pubkey"],
+                          "digest": list(hashlib.sha1(bytes.fromhex(base["sid"]) + bytes.fromhex(sec) + bytes.fromhex(base["pubkey"])).digest()),
+                          "reply_id": "%032x" % (0xC12 << 64 | i), "reply_name": "Player%d" % i})
+    # ... and two logins with the same claimed name that overlap in time (the service takes 300 ms to answer): one record per pair
+    for j, pname in enumerate((b"Twin", b"twin", "Zwilling\u00e9".encode())):
+        base = configs[(j + 1) % len(configs)]
+        sec2 = hashlib.sha256(b"pair%d" % j).hexdigest()[:32]
+        i = len(cases) + 1
+        cases.append({"i": i, "name": list(pname), "kind": "overlapping", "script": "slowok", "sid": base["sid"], "secret": base["secret"], "secret2": sec2, "pubkey": base["pubkey"],
+                      "digest": list(hashlib.sha1(bytes.fromhex(base["sid"]) + bytes.fromhex(base["secret"]) + bytes.fromhex(base["pubkey"])).digest()),
+                      "reply_id": "%032x" % (0xC12 << 64 | i), "reply_name": "Player%d" % i})
     inp = os.path.join(wd, "cases.ndjson")
     outp = os.path.join(wd, "observed.ndjson")
     vlib.write_ndjson(inp, cases)
